@@ -32,6 +32,10 @@ PROPS = {
         assumptions=["elements are not aligned with the global x axis (the local triad uses x as reference)",
                      "IEEE overflow is not modelled: the theorem shows every KS exponent is <= 0"],
     ),
+    "C13": dict(
+        components=["Taper", "ScaleX", "Sweep", "Dihedral", "Shear", "Stretch", "Rotate", "GeometryChain"],
+        assumptions=["B-splines (om.SplineComp) are external: 'equal control points give a constant' is examined by the oracle only"],
+    ),
     "C17": dict(
         components=["TotalLiftDrag", "SumAreas", "Equilibrium", "Breguet", "CenterOfGravity", "Reynolds", "MomentCoefficient", "Coeffs"],
         assumptions=["Akima interpolation of the atmosphere table is scipy's (continuity checked numerically only)"],
@@ -44,10 +48,10 @@ PROPS = {
 }
 for k, v in PROPS.items():
     v["theorems"] = THEOREMS.get(k, {}).get("theorems", [])
-
-
-def regenerate(prop):
-    return {}
+    v["modules"] = THEOREMS.get(k, {}).get("modules", ["OASProofs.Props." + k])
+    v["generated"] = THEOREMS.get(k, {}).get("generated", [])
+    v["generated_modules"] = THEOREMS.get(k, {}).get("generated_modules", [])
+    v["generated_theorem_prefixes"] = THEOREMS.get(k, {}).get("generated_theorem_prefixes", [])
 
 
 def run_suites(prop, st, tier):
